@@ -218,6 +218,8 @@ def run_asyncio(case):
                     await settle()
                 elif op == "settle":
                     await settle()
+                elif op == "quiesce":
+                    await loop.quiescent()
                 elif op == "advance":
                     await loop.advance(step[1])
                     await settle()
@@ -444,6 +446,8 @@ def run_trio(case):
                     await settle()
                 elif op == "settle":
                     await settle()
+                elif op == "quiesce":
+                    await wait_blocked()
                 elif op == "advance":
                     await advance(step[1])
                     await settle()
